@@ -74,6 +74,14 @@ known("C01", "C01-shared-enum-extended", ["shared-enum-extended"], r"^errors: (I
 known("C01", "C01-abstract-fragment-in-interface-field", ["interface-field", "frag-on-abstract"], r"^diff:MISSING (<field>|__typename)$",
       "inside an interface-typed field a fragment on another interface (interface chain) is not expanded to the implementing types; its fields and the requested __typename are dropped",
       witness="{ leafs { __typename ... on IMid { b } } }")
+known("C01", "C01-object-key-reused", ["object-key-reused", "depth>=3"], r"^(diff:(MISSING|EXTRA|VALUE|NULL|LISTLEN|TYPE) |errors: )",
+      "executor.FindSelection looks a path element up by response key depth-first through the whole selection set instead of along the path: when the same key selects objects at two positions (n1s { b { c {p} } c { c {p} } }) child results are stitched to / looked for at the wrong place",
+      witness="{ n1s { b { c { p } } c { c { p } } } } on Wfan")
+known("C01", "C01-var-named-id", ["var-named-id"], r"^errors: INVALID SUBREQUEST: Variable \"\$id\" of type \"<x>\" used in position expecting type \"<x>\"\.$",
+      "a client variable called id collides with the $id the planner declares for node lookups: the child step declares it once, with the type of the client's use",
+      witness="query($id:Int){ n2 { owner { calc(x:$id) } } }")
+known("C01", "C01-root-node-no-root-steps-with-fragment", ["root-node"], r"^errors: query plan contains no root steps$",
+      "root node() whose only fragment selects nothing but id on a type that has no other field is planned into zero root steps", witness='{ node(id:"N1_1") { ... on Tenant { id } } }')
 known("C01", "C01-named-fragment-reused", ["frag-named-twice"], r"^diff:EXTRA (id|__typename)$",
       "sanitizeSelectionSet mutates the shared fragment definition on first use; the second spread sees the injected helper as client-selected and does not register it for scrubbing",
       witness="{ n2 { ...F } b: n2 { ...F } } fragment F on N2 { owner { calc } }")
@@ -92,12 +100,18 @@ C02 = [
                 "the selection on an interface nobody implements is replaced by an unregistered __typename only (observable only at the plan level: the field's value can only be null)"),
  ("shared-enum-extended", ["shared-enum-extended"], [r"^subrequest-invalid: Value \"<x>\" does not exist in \"<x>\" enum\.$", r"^subrequest-variable-error: "], "enum value known to one service only is forwarded to the other"),
  ("abstract-fragment-in-interface-field", ["interface-field", "frag-on-abstract"], [r"^plan-drops-client-field: (<field>|__typename)$"], "fragment on another interface inside an interface-typed field is dropped"),
+ ("var-named-id", ["var-named-id"], [r"^subrequest-invalid: Variable \"\$id\" of type", r"^variable-value-differs: "], "client variable named id collides with the stitching variable"),
  ("named-fragment-reused", ["frag-named-twice"], [r"^helper-not-registered-for-removal: (id|__typename)$"], "a named fragment spread twice has its injected helper registered only for the first use"),
 ]
 for name, atoms, sigs, what in C02:
     for i, sg in enumerate(sigs):
         known("C02", "C02-%s-%d" % (name, i), atoms, sg, what)
 
+known("C05", "C05-shared-type-id-in-one-service-only", ["conflict-shared-type-id-in-one-only"], r"^(conflicting set accepted silently|merged types/fields depend on the order of the service list)$",
+      "a plain (non-Node) type declared as {id, name} by one service and {name} by another is neither identical nor disjoint, yet it is accepted: id is left out of the overlap accounting for every type (mergeCustomObjectFields), and the merged type has or lacks id depending on the order. Not repaired: counting id breaks the repository's own TestMergeSupportsSpreadInterfaces, which relies on it",
+      witness="type P {id: ID! name: String} / type P {name: String}")
+fixed("C04", "C04-node-shaped-fields-unrouted", "f39394f", "Mutation.archive(id: ID!): Node / Query.lookup(id: ID!): Node: any root field with the shape of the Relay lookup was left out of the routing table")
+fixed("C09", "C09-empty-list-for-object-crash", "61c2700", "service answers an object field on a child-step path with []: index out of range at executor/result.go:241 in a worker goroutine")
 # ----------------------------------------------------------------------------- C19
 for i, sg in enumerate([r"^file bytes changed on the way$", r"^diff:VALUE at <field>$", r"^service that uses the file variable did not receive the file at its path$", r"^diff:NULL "]):
     known("C19", "C19-one-file-two-paths-%d" % i, ["one-file-two-paths"], sg,
